@@ -384,33 +384,68 @@ def run_uns(case):
         import scipy.spatial
         tri = scipy.spatial.Delaunay(np.array(src, dtype=float))
     simp = tri.find_simplex(np.array(pts, dtype=float))
-    inside = [int(s) >= 0 for s in simp]
+    # exact location of every evaluation point with respect to the convex hull (Fractions)
+    fsrc2 = [frl(p) for p in src]
+    simplices = [[int(v) for v in sx] for sx in tri.simplices]
+    hull_edges = [[int(v) for v in e] for e in tri.convex_hull]
+
+    def bary(sx, fp):
+        (ax, ay), (bx, by), (cx, cy) = [fsrc2[v] for v in sx]
+        det = (bx - ax) * (cy - ay) - (cx - ax) * (by - ay)
+        if det == 0:
+            return None
+        l1 = ((fp[0] - ax) * (cy - ay) - (cx - ax) * (fp[1] - ay)) / det
+        l2 = ((bx - ax) * (fp[1] - ay) - (fp[0] - ax) * (by - ay)) / det
+        return [1 - l1 - l2, l1, l2]
+
+    def in_closed_hull(fp):
+        for sx in simplices:
+            lam = bary(sx, fp)
+            if lam is not None and all(x >= 0 for x in lam):
+                return True
+        return False
+
+    def on_hull_boundary(fp):
+        for i, j in hull_edges:
+            (ax, ay), (bx, by) = fsrc2[i], fsrc2[j]
+            cr = (bx - ax) * (fp[1] - ay) - (by - ay) * (fp[0] - ax)
+            if cr == 0:
+                t = (fp[0] - ax) * (bx - ax) + (fp[1] - ay) * (by - ay)
+                if 0 <= t <= (bx - ax) ** 2 + (by - ay) ** 2:
+                    return True
+        return False
+
+    inside = [in_closed_hull(frl(p)) for p in pts]
+    boundary = [ins and on_hull_boundary(frl(p)) for ins, p in zip(inside, pts)]
     fillv = 0.0 if route == 'unstructured-fill0' else None
     if got is not None:
-        if 'affine' in case:
-            worst = 0.0
-            for g, p, ins in zip(got, pts, inside):
-                if ins:
+        lookup = {tuple(p): v for p, v in zip(src, vals)}
+        reported = set()
+        for g, p, ins, bnd, sx in zip(got, pts, inside, boundary, simp):
+            key = 'unstructured-linear-hull-boundary' if bnd else 'unstructured-linear'
+            what = None
+            if ins:
+                if 'affine' in case:
                     w = float(aff(c0, c, p))
                     if not abs(g - w) <= TOL * max(1.0, abs(w)):
-                        worst = max(worst, abs(g - w) if g == g else float('inf'))
-            if worst > 0:
-                bad.append(('unstructured-linear', 'affine field not reproduced inside the hull of a scattered grid (error %g)' % worst))
-        lookup = {tuple(p): v for p, v in zip(src, vals)}
-        for g, p in zip(got, pts):
-            if tuple(p) in lookup and not abs(g - lookup[tuple(p)]) <= TOL * max(1.0, abs(lookup[tuple(p)])):
-                bad.append(('unstructured-linear', 'sample value not returned at a sample point of a scattered grid'))
-                break
-        for g, p, s in zip(got, pts, simp):
-            if int(s) >= 0:
-                vs = [int(v) for v in tri.simplices[int(s)]]
+                        what = 'affine field not reproduced at %r %s of a scattered grid: got %r, expected %r' % (
+                            p, 'on the boundary of the hull' if bnd else 'inside the hull', g, w)
+                if what is None and tuple(p) in lookup and not abs(g - lookup[tuple(p)]) <= TOL * max(1.0, abs(lookup[tuple(p)])):
+                    what = 'sample value not returned at the sample point %r%s of a scattered grid: got %r' % (
+                        p, ' (a vertex of the hull)' if bnd else '', g)
+                if what is None and int(sx) < 0:
+                    what = 'point %r %s got the fill value' % (p, 'on the boundary of the hull' if bnd else 'inside the hull')
+            else:
+                if (fillv is None and g == g) or (fillv is not None and g != fillv):
+                    what = 'point %r outside the hull did not get the fill value' % (p,)
+            if what is not None and key not in reported:
+                reported.add(key)
+                bad.append((key, what))
+            if int(sx) >= 0 and what is None:
+                vs = [int(v) for v in tri.simplices[int(sx)]]
                 t = [src[v][k] for v in vs for k in (0, 1)]
                 lines.append('C18 lin-tri %s %s %s' % (rat_list(t), rat_list([vals[v] for v in vs]), rat_list(p)))
                 cmps.append(('lin-tri', [g], {'nan': None}))
-            else:
-                want = fillv
-                if (want is None and g == g) or (want is not None and g != want):
-                    bad.append(('unstructured-linear', 'point outside the hull did not get the fill value'))
     # ---- nearest
     gotn = None
     try:
@@ -434,7 +469,7 @@ def run_uns(case):
                 break
         lines.append('C18 near-uns %s %s %s' % (rat_lists(src), rat_list(vals), rat_lists(pts)))
         cmps.append(('near-uns', gotn, {}))
-    info = {'n_src': len(src), 'n_inside': sum(inside), 'n_outside': len(inside) - sum(inside), 'npts': len(pts)}
+    info = {'n_src': len(src), 'n_inside': sum(inside), 'n_outside': len(inside) - sum(inside), 'npts': len(pts), 'n_boundary': sum(boundary)}
     return bad, lines, cmps, info
 
 
@@ -593,6 +628,10 @@ DIRECTED = [
      'pts': [[0.5, 0.5], [0.25, 0.125], [0.0, 1.0], [0.875, 0.75]], 'route': 'dispatch'},
     {'fam': 'uns', 'pts_src': [[0.0, 0.0], [2.0, 0.0], [0.0, 2.0], [2.0, 2.0], [1.0, 0.5], [0.5, 1.5]], 'vals': [1.0, -2.0, 4.0, 0.5, 3.0, 8.0],
      'pts': [[0.5, 0.5], [1.25, 1.0], [1.75, 1.875], [3.0, 3.0]], 'route': 'unstructured-default'},
+    # found by the thorough tier: SciPy's point location misses the hull vertex (1.875, -3.5)  (known finding)
+    {'fam': 'uns', 'pts_src': [[0.75, 2.25], [4.0, 2.375], [-0.625, 0.375], [0.375, 3.875], [-0.625, -1.25], [1.875, -3.5], [1.625, -0.25],
+                               [2.0, -3.125], [-1.25, -1.125], [-3.5, 1.5], [-0.5, -3.125]], 'affine': [2.0, [1.0, -3.0]],
+     'pts': [[-4.125, 3.0], [1.875, -3.5], [-0.5, 2.0], [0.75, -1.734375], [1.625, -0.25], [0.859375, 1.78125]], 'route': 'unstructured-fill0'},
     {'fam': 'bin', 'dims': [2, 1], 's': 2, 'tshape': [], 'regular': True, 'delta': [1.0, 1.0], 'stat': 'sum', 'vals': [1.0, 2, 3, 4, 5, 6, 7, 8], 'give_grid': False},
     {'fam': 'bin', 'dims': [2, 3], 's': 3, 'tshape': [2], 'regular': True, 'delta': [0.5, 2.0], 'stat': 'mean', 'vals': [float((7 * i) % 11) for i in range(108)], 'give_grid': True},
     {'fam': 'bin', 'dims': [2, 2], 's': 2, 'tshape': [], 'regular': False, 'axes': [[0.0, 1.0, 3.0, 3.5], [0.0, 0.5, 1.0, 4.0]], 'stat': 'mean',
@@ -623,6 +662,7 @@ def check_case(ctx, case, all_lines, index):
         ctx.count('uns:route:' + case['route'])
         ctx.count('uns:points_inside_hull', info['n_inside'])
         ctx.count('uns:points_outside_hull', info['n_outside'])
+        ctx.count('uns:points_on_hull_boundary', info['n_boundary'])
         ctx.count('uns:' + ('affine' if 'affine' in case else 'random-values'))
         sig = (fam, info['n_src'], 'affine' in case, case['route'], info['npts'])
     elif fam == 'bin':
@@ -694,7 +734,7 @@ def run(ctx):
     ctx.assumptions += ['scipy RegularGridInterpolator / LinearNDInterpolator / NearestNDInterpolator meet their specification',
                         'the Delaunay simplex containing each evaluation point is read from the SciPy object inside the interpolator closure',
                         'all coordinates and values are short dyadic rationals, so squared distances and comparisons are exact in float']
-    n = ctx.scale(700, 12000)
+    n = ctx.scale(4000, 60000)
     cases = list(DIRECTED)
     fams = ['sep', 'uns', 'bin', 'ss']
     for k in range(n):
